@@ -469,16 +469,54 @@ def check_sign(ctx) -> None:
     elif init:
         ctx.bad("C10.sign", fn, init[0], "the stoichiometry map does not start every species at 0")
     w = prog.func(MOD, "_model_to_sbml")
-    ifs = [n for n in walk_local(w.node) if isinstance(n, ast.If) and norm(n.test) == "stoichiometry < 0"]
-    if ifs:
-        b = " ".join(" ".join(ast.unparse(s).split()) for s in ifs[0].body)
-        o = " ".join(" ".join(ast.unparse(s).split()) for s in ifs[0].orelse)
-        if "createReactant()" in b and "setStoichiometry(-stoichiometry)" in b and "createProduct()" in o and "setStoichiometry(stoichiometry)" in o:
-            ctx.ok("C10.sign", w, ifs[0], "negative coefficient -> reactant with -coefficient; otherwise product")
-        else:
-            ctx.bad("C10.sign", w, ifs[0], "the writer's reactant/product split does not match the sign of the coefficient")
+    # the species-reference block, evaluated for a negative and a positive coefficient
+    loops = [n for n in walk_local(w.node) if isinstance(n, ast.For) and "metabolites" in norm(n.iter) and any(isinstance(c, ast.Call) and isinstance(c.func, ast.Attribute) and c.func.attr in ("createReactant", "createProduct") for c in ast.walk(n))]
+    if not loops:
+        ctx.bad("C10.sign", w, w.node, "the writer no longer creates reactant/product references per metabolite")
+        return
+    lp = loops[0]
+    tnames = [e.id for e in (lp.target.elts if isinstance(lp.target, ast.Tuple) else [lp.target]) if isinstance(e, ast.Name)]
+    if len(tnames) != 2:
+        raise AnalysisError("C10.sign: the species-reference loop does not iterate (metabolite, coefficient)")
+    problems = []
+    for coef in (-2.5, 3.0, 1.0):
+        created: List[str] = []
+        amounts: List[object] = []
+
+        class _Ref:
+            pass
+
+        ref = _Ref()
+
+        def on_call(ev, c: ast.Call):
+            f = c.func
+            if isinstance(f, ast.Attribute) and f.attr in ("createReactant", "createProduct"):
+                created.append(f.attr)
+                return ref
+            if isinstance(f, ast.Attribute) and f.attr == "setStoichiometry":
+                amounts.append(ev.eval(c.args[0]))
+                return None
+            if isinstance(f, ast.Attribute) and f.attr.startswith("set"):
+                return None
+            return NotImplemented
+
+        def on_attr(ev, a: ast.Attribute):
+            if isinstance(a.value, ast.Name) and a.value.id == tnames[0] and a.attr == "id":
+                return "m_c"
+            return NotImplemented
+
+        ev = Evaluator({tnames[0]: Opaque("metabolite"), tnames[1]: coef, "f_replace": {}}, on_call=on_call, on_attr=on_attr)
+        try:
+            ev.run(lp.body)
+        except (Unknown, EvalRaise) as exc:
+            raise AnalysisError(f"C10.sign: the species-reference block cannot be evaluated: {exc}")
+        want = "createReactant" if coef < 0 else "createProduct"
+        if created != [want] or amounts != [abs(coef)]:
+            problems.append(f"coefficient {coef:g}: {created or 'nothing'} with stoichiometry {amounts}, expected one {want}() with {abs(coef):g}")
+    if problems:
+        ctx.bad("C10.sign", w, lp, "the writer's reactant/product split does not match the sign of the coefficient: " + "; ".join(problems[:2]))
     else:
-        ctx.bad("C10.sign", w, w.node, "the writer no longer splits reactants and products by the sign of the coefficient")
+        ctx.ok("C10.sign", w, lp, "negative coefficient -> one reactant with -coefficient; otherwise one product with the coefficient (evaluated)")
 
 
 def check_direction(ctx) -> None:
